@@ -313,6 +313,10 @@ def run(ctx):
         if name not in tab:
             raise AnalysisError("R17.once: no dispatch arm for %r" % name)
         h, good, fail_flags = once_flag_of(model, name)
+        if good is None and h in _OPAQUE_REFUSALS:
+            raise AnalysisError("R17.once: %s is refused on the word of a helper object's "
+                                "method (the once-only markers are not plain attributes of "
+                                "the connection): not modelled" % h)
         once_flag[h] = good
         ctx.ob("R17.once", "%s is once per connection" % h, good is not None, "",
                "guarded by %s" % good if good else
@@ -659,6 +663,9 @@ def counter_only(model, e):
     return r[2] not in relevant_attrs(model, r[1][1])
 
 
+_OPAQUE_REFUSALS = set()
+
+
 def once_flag_of(model, name):
     """(handler, flag, refusal flags): the boolean / state attribute of the
     connection that is tested before the effects of the handler of `name` and
@@ -679,6 +686,12 @@ def once_flag_of(model, name):
                     a = _flag_attr(t)
                     if a and _truthy(t, b):
                         fail_flags.add(a)
+                pcs = list(raises[0]["pc"])
+                if pcs and _flag_attr(pcs[-1][0]) is None and mentions(
+                        pcs[-1][0], lambda x: isinstance(x, tuple) and x and x[0] == "call"
+                        and isinstance(x[1], str) and x[1].startswith(".")):
+                    # refused because of what a method of some helper object said
+                    _OPAQUE_REFUSALS.add(h)
             continue
         if p.outcome.kind != "return":
             continue
